@@ -270,12 +270,61 @@ func randOpt6(rng *rand.Rand, code int, depth int) dhcpv6.Option {
 	case 135:
 		return dhcpv6.OptRelayPort(uint16(rng.Intn(65536)))
 	}
+	if v, ok := untyped6(rng, code); ok && rng.Intn(3) > 0 {
+		return &dhcpv6.OptionGeneric{OptionCode: dhcpv6.OptionCode(code), OptionData: v}
+	}
 	return &dhcpv6.OptionGeneric{OptionCode: dhcpv6.OptionCode(code), OptionData: rdata(rng)}
+}
+
+// untypedCodes6: options of RFC 8415 and its companions that the library carries as opaque values
+var untypedCodes6 = []int{7, 11, 12, 14, 19, 20, 21, 22, 31, 43, 64, 82, 83}
+
+// untyped6: a well-formed value of such an option, as its RFC lays it out (the library has no type for it, a change
+// that starts to look inside must still carry it verbatim)
+func untyped6(rng *rand.Rand, code int) ([]byte, bool) {
+	u32 := func() []byte { return randBytes(rng, 4) }
+	switch code {
+	case 7: // preference
+		return []byte{byte(pick(rng, 0, 1, 255, rng.Intn(256)))}, true
+	case 11: // authentication: protocol, algorithm, RDM, replay detection, information (RKAP: type + 16-octet key / HMAC)
+		v := append([]byte{byte(pick(rng, 3, 3, 2, 1, 0)), byte(pick(rng, 1, 0)), 0}, randBytes(rng, 8)...)
+		switch v[0] {
+		case 3:
+			v = append(append(v, byte(pick(rng, 1, 2))), randBytes(rng, 16)...)
+		case 2:
+			v = append(append(append(v, randBytes(rng, 4)...), u32()...), randBytes(rng, 16)...)
+		}
+		return v, true
+	case 12: // server unicast
+		return []byte(rip6(rng).To16()), true
+	case 14, 20: // rapid commit, reconfigure accept
+		return []byte{}, true
+	case 19: // reconfigure message
+		return []byte{byte(pick(rng, 5, 6, 11))}, true
+	case 43: // relay agent echo request: option codes
+		var v []byte
+		for k := rng.Intn(4); k > 0; k-- {
+			c := pick(rng, 37, 18, 79, 38, 135, rng.Intn(200))
+			v = append(v, byte(c>>8), byte(c))
+		}
+		return v, true
+	case 82, 83: // SOL_MAX_RT, INF_MAX_RT
+		return u32(), true
+	case 22, 31: // SIP / SNTP server addresses
+		var v []byte
+		for k := 1 + rng.Intn(2); k > 0; k-- {
+			v = append(v, rip6(rng).To16()...)
+		}
+		return v, true
+	case 21, 64: // SIP domain names, AFTR name
+		return (&rfc1035label.Labels{Labels: []string{randName(rng)}}).ToBytes(), true
+	}
+	return nil, false
 }
 
 func randCode6(rng *rand.Rand) int {
 	if rng.Intn(5) == 0 {
-		return pick(rng, 0, 7, 14, 100, 200, 1000, 65535) // unknown / untyped codes
+		return pick(rng, 0, 100, 200, 1000, 65535, untypedCodes6[rng.Intn(len(untypedCodes6))], untypedCodes6[rng.Intn(len(untypedCodes6))]) // unknown / untyped codes
 	}
 	return v6Known[rng.Intn(len(v6Known))]
 }
